@@ -26,7 +26,7 @@ How to work:
     patch.diff   - `git diff` of ONLY that change against the unmodified tree (must apply with `git apply` at the repository root);
     demo.py      - a small standalone program (run as `PYTHONPATH=<tree> /venv/bin/python demo.py`) that exercises the public/underscore API the way the repository's own tests do, exits 0 and prints PASS on the unmodified tree, and exits 1 printing FAIL plus what was observed on the changed tree. It must demonstrate a violation of the property as stated above (not merely a difference in behaviour);
     meta.json    - {{"property": "{pid}", "summary": "...what the change does...", "needs": "...what specific input/sequence/configuration is needed for it to manifest...", "files": [...]}}
-- After writing each patch, `git checkout -- .` (or `git stash`) to restore the tree before starting the next change; verify each patch applies cleanly to the clean tree, that the test suite passes with it, that demo.py FAILS with it and PASSES without it. Leave the worktree clean (only seeded_out/ untracked) at the end.
+- After writing each patch, `git checkout -- .` to restore the tree before starting the next change; verify each patch applies cleanly to the clean tree, that the test suite passes with it, that demo.py FAILS with it and PASSES without it. Leave the worktree clean (only seeded_out/ untracked) at the end.
 - No network access exists. Do not install anything.
 
 Finish by replying with a short list: for each change, its directory, one-line summary, and the confirmation results (tests passed? demo fails with / passes without?).""")
